@@ -88,6 +88,42 @@ def fingerprint(obj, _depth=0):
     )
 
 
+_EMPTY = {("NoneType", None), ("dict", ()), ("list", ()), ("tuple", ()), ("set", ()), ("frozenset", ())}
+
+
+def _lazy_name(k):
+    k = k.lower()
+    return "cache" in k or "memo" in k or "lazy" in k
+
+
+def same_observable(before, after):
+    """compare two fingerprints, ignoring what cannot have been observable state before the call: PRIVATE attributes of an
+    object that were absent, None or empty before (lazily filled slots), and private attributes named as caches / memos.
+    A library is free to remember things about an argument; whether it then answers correctly is decided by the
+    functional oracles, not by this comparison."""
+    if before == after:
+        return True
+    if type(before) is not tuple or type(after) is not tuple or not before or not after or before[0] != after[0]:
+        return False
+    tag = before[0]
+    if tag == "obj" and len(before) == 3 and len(after) == 3 and type(before[2]) is tuple and type(after[2]) is tuple:
+        if before[1] != after[1]:
+            return False
+        b, a = dict(before[2]), dict(after[2])
+        for k in list(b.keys()) + [k for k in a if k not in b]:
+            if isinstance(k, str) and k.startswith("_") and not k.startswith("__"):
+                if k not in b or b[k] in _EMPTY or _lazy_name(k):
+                    continue
+            if k not in a or k not in b or not same_observable(b[k], a[k]):
+                return False
+        return True
+    if tag in ("list", "tuple") and len(before) == 2 and len(after) == 2:
+        return len(before[1]) == len(after[1]) and all(same_observable(x, y) for x, y in zip(before[1], after[1]))
+    if tag == "dict" and len(before) == 2 and len(after) == 2:
+        return len(before[1]) == len(after[1]) and all(same_observable(kx, ky) and same_observable(vx, vy) for (kx, vx), (ky, vy) in zip(before[1], after[1]))
+    return False
+
+
 class Snap:
     """snapshot a list of live objects before a call; compare after"""
 
@@ -98,7 +134,7 @@ class Snap:
     def changed(self):
         out = []
         for i, o in enumerate(self.objs):
-            if fingerprint(o) != self.before[i]:
+            if not same_observable(self.before[i], fingerprint(o)):
                 out.append(i)
         return out
 
